@@ -11,7 +11,7 @@ import os
 import subprocess
 import sys
 
-from common import VERIF, S, L, run_driver, to_str, rng_for, load_known_findings
+from common import VERIF, REPO, S, L, run_driver, to_str, rng_for, load_known_findings
 
 WORKER = os.path.join(VERIF, 'harness', 'purity_worker.py')
 
@@ -19,7 +19,7 @@ WORKER = os.path.join(VERIF, 'harness', 'purity_worker.py')
 def run_worker(seed, order, passes=1, extra_env=None):
     env = dict(os.environ)
     env['PYTHONHASHSEED'] = str(seed)
-    env['PYTHONPATH'] = '/repo'
+    env['PYTHONPATH'] = REPO
     env.update(extra_env or {})
     out = subprocess.run(['/venv/bin/python', '-W', 'ignore', WORKER, order, str(passes)], env=env, capture_output=True, text=True, timeout=900)
     if out.returncode != 0:
@@ -107,7 +107,7 @@ def run(rep, ctx):
         args = ['one', inp['differ'], json.dumps(inp['kwargs'])]
         outs = []
         for extra in ({}, inp['environment']):
-            env = dict(os.environ, PYTHONHASHSEED='0', PYTHONPATH='/repo', **extra)
+            env = dict(os.environ, PYTHONHASHSEED='0', PYTHONPATH=REPO, **extra)
             o = subprocess.run(['/venv/bin/python', '-W', 'ignore', WORKER] + args, env=env, capture_output=True, text=True, timeout=300)
             outs.append(o.stdout.strip().splitlines()[-1] if o.returncode == 0 and o.stdout.strip() else 'failed: ' + o.stderr[-200:])
         rep.count(('known', k['id']), True)
